@@ -809,3 +809,10 @@ v("c19-extension-thunk-as-local-def", "C19", "LAZY-THUNKS", U + "extend_schema.p
   "                return merge_kwargs(\n                    config,\n                    fields=lambda: {\n                        **config[\"fields\"](),\n                        **build_input_field_map(extensions),\n                    },\n",
   "                def fields() -> dict:\n                    return {**config[\"fields\"](), **build_input_field_map(extensions)}\n\n                return merge_kwargs(\n                    config,\n                    fields=fields,\n",
   expect="silent")
+
+# -- round 5: C02 ------------------------------------------------------------------------------------------
+v("c02-leaf-shortcut-for-native-types", "C02", "LEAF-COERCED", E + "executor.py",
+  "        coerced = return_type.coerce_output_value(result)\n        if coerced is Undefined or coerced is None:\n",
+  "        if type(result) is str and return_type.name == \"String\":\n            return result\n        coerced = return_type.coerce_output_value(result)\n        if coerced is Undefined or coerced is None:\n")
+v("c02-unknown-input-field-by-count", "C02", "SIBLING-ATOMS", U + "coerce_input_value.py",
+  "            if field_name not in fields:\n                return Undefined  # Invalid: intentionally return no value.\n", "")
